@@ -602,6 +602,43 @@ theorem as_tuple_idem_partial (v : Val) (h : ∀ xs, asTuple v ≠ [.list xs]) :
 example : ∀ xs, asTuple (.tuple [.cell (.int 1), .list [.cell (.int 2)]]) ≠ [.list xs] := by
   intro xs h; simp [asTuple] at h
 
+/-- **the K2 input class** (review t5: it lived only in the python matcher `_k2`): the first result is a 1-tuple holding a list
+exactly for a list holding one list and for a 1-tuple holding such a list -/
+theorem as_tuple_k2_class (v : Val) (xs : List Val) :
+    asTuple v = [.list xs] ↔ v = .list [.list xs] ∨ v = .tuple [.list [.list xs]] := by
+  constructor
+  · intro h
+    unfold asTuple at h
+    split at h
+    · cases h
+    · right; subst h; rfl
+    · rename_i ys hne
+      subst h
+      exact absurd rfl (hne xs)
+    · left; subst h; rfl
+    · rename_i h1 h2 h3 h4
+      simp only [List.cons.injEq, and_true] at h
+      exact absurd h (h4 xs)
+  · rintro (rfl | rfl) <;> rfl
+
+/-- ... so, in terms of the INPUT: `as_tuple` is idempotent on `v` iff `v` is neither `[[…]]` (a list holding exactly one list) nor
+`([[…]],)` - the matcher of finding K2 accepts exactly these inputs -/
+theorem as_tuple_idem_iff_input (v : Val) :
+    asTuple (.tuple (asTuple v)) = asTuple v ↔ ∀ xs, v ≠ .list [.list xs] ∧ v ≠ .tuple [.list [.list xs]] := by
+  rw [as_tuple_idem_iff]
+  constructor
+  · intro h xs
+    have := h xs
+    rw [Ne, as_tuple_k2_class] at this
+    exact ⟨fun e => this (Or.inl e), fun e => this (Or.inr e)⟩
+  · intro h xs hx
+    rcases (as_tuple_k2_class v xs).mp hx with e | e
+    · exact (h xs).1 e
+    · exact (h xs).2 e
+
+example : asTuple (.tuple (asTuple (.tuple [.list [.list [.cell (.int 1)]]]))) ≠ asTuple (.tuple [.list [.list [.cell (.int 1)]]]) := by
+  decide +kernel
+
 /-! ## waiter
 
 `runEvents w evs` is the task tree of `await waiter(w)` after the completion events `evs`; `.result` is what
